@@ -73,6 +73,7 @@ struct stub_port
     read_buffer begin_event( sim::Result& ) { return holder->isr_allocate_receive_buffer(); }
     bool room( const read_buffer& b ) const { return b.size != 0; }
     // -> responded, transmit buffer
+    bluetoe::link_layer::connection_event_events last_events() const { return bluetoe::link_layer::connection_event_events(); }
     std::pair< bool, write_buffer > reception( bool room, bool valid_crc, bool valid_mic, const read_buffer& buf, sim::Result& )
     {
         if ( !valid_crc && !valid_mic ) return { false, write_buffer{ nullptr, 0 } };
@@ -120,6 +121,7 @@ struct nrf_port
         holder->run();
         if ( holder->n_timeout != before + 1 ) res.violate( "C15", "front-end", "front-end timeout-not-reported", -1, "an event without reception was not reported as timeout()" );
     }
+    bluetoe::link_layer::connection_event_events last_events() { return holder->last_events; }
     std::pair< bool, write_buffer > reception( bool, bool valid_crc, bool valid_mic, const read_buffer&, sim::Result& res )
     {
         nrf_front::hw_state& hw = nrf_front::g_hw;
@@ -312,6 +314,22 @@ void run( const sim::Plan& plan, sim::Result& res )
             return;
         }
         write_buffer trans = outcome.second;
+        // C23: what the front end reports about the event are the listen conditions of the peripheral latency configuration
+        // (this radio exchanges one pair of PDUs per event: a non-empty PDU it sent cannot have been acknowledged within the event)
+        if ( Port::real && valid_crc && !violated && trans.size != 0 && trans.buffer != nullptr )
+        {
+            const auto ev = port.last_events();
+            const bool sent_nonempty = ( layout::header( trans ) >> 8 ) != 0;
+            const bool md = !cqueue.empty();
+            if ( ev.last_received_not_empty != c_nonempty )
+                res.violate( "C23", "event-report", "event-report last_received_not_empty", idx, "%s: last_received_not_empty reported %d after a %s PDU from the central", cfg.c_str(), ev.last_received_not_empty, c_nonempty ? "non-empty" : "empty" );
+            if ( ev.last_received_had_more_data != md )
+                res.violate( "C23", "event-report", "event-report last_received_had_more_data", idx, "%s: last_received_had_more_data reported %d, the central's MD flag was %d", cfg.c_str(), ev.last_received_had_more_data, md );
+            if ( ev.last_transmitted_not_empty != sent_nonempty )
+                res.violate( "C23", "event-report", "event-report last_transmitted_not_empty", idx, "%s: last_transmitted_not_empty reported %d after a %s PDU was sent", cfg.c_str(), ev.last_transmitted_not_empty, sent_nonempty ? "non-empty" : "empty" );
+            if ( ev.unacknowledged_data != sent_nonempty )
+                res.violate( "C23", "event-report", "event-report unacknowledged_data", idx, "%s: unacknowledged_data reported %d at the end of an event in which the peripheral sent %s PDU", cfg.c_str(), ev.unacknowledged_data, sent_nonempty ? "a non-empty (not yet acknowledged)" : "only an empty" );
+        }
         // from the central's point of view the PDU is new to the peripheral iff it was not legitimately accepted before
         // (the central keeps its SN until it sees the acknowledge)
         if ( path == 1 && !c_inflight.accepted_legitimately )
@@ -539,7 +557,7 @@ void run( const sim::Plan& plan, sim::Result& res )
 struct pdu_harness : sim::Harness
 {
     const char* name() const override { return "pdu_sim"; }
-    std::vector< std::string > properties() const override { return { "C15", "C16", "C17" }; }
+    std::vector< std::string > properties() const override { return { "C15", "C16", "C17", "C23" }; }
     std::string nontrivial_rule( const std::string& ) const override
     {
         return "seeded op sequences: packet exchanges (each with an attached air fault: none / central->peripheral lost, CRC error, MIC error / peripheral->central lost, CRC error), "
